@@ -5,21 +5,24 @@
    SPARQLUpdateStore by the algebra its text denotes and mirrors the edit
    queue statement by statement.  Request TEXT, regex rewriting and HTTP are
    not modelled (conformance only, see notes/C20.md).
-   [good alias o] is the per-operation form of [kf c = 0]: the operation is
-   outside the four known findings F13a-d. *)
+   The four findings F13a-d have been repaired in the code ("fix:" commits
+   168749f3, d390f22b, f0b9913b, e1d625e1); the model follows the repaired
+   code and every theorem is stated without a trigger hypothesis. *)
 From RV Require Import Remote.Model Remote.Proofs.
 Local Open Scope N_scope.
 
-(* The tie between model and checker: outside the findings, what the model
-   does is accepted by the specification checker, for every history. *)
-Theorem C20_spec_ok_model : forall c, wf c -> kf c = 0 -> spec_ok c (model_obs c) = true.
+(* The tie between model and checker: what the model does is accepted by the
+   specification checker, for every history (including histories with updates
+   the endpoint rejects). *)
+Theorem C20_spec_ok_model : forall c, wf c -> spec_ok c (model_obs c) = true.
 Proof. exact spec_ok_model. Qed.
 Print Assumptions C20_spec_ok_model.
 
 (* Each write (add, addN, remove with wildcards, add_graph, remove_graph,
-   update) is one request that the endpoint accepts and whose effect on the
-   endpoint's dataset is the effect the write has on a local dataset. *)
-Theorem C20_writes_mirror : forall alias o w, good alias o = true -> classify o = KWrite w ->
+   update incl. initBindings) is one request that the endpoint accepts and
+   whose effect on the endpoint's dataset is the effect the write has on a
+   local dataset - on either endpoint flavour. *)
+Theorem C20_writes_mirror : forall alias o w, classify o = KWrite w ->
   exists us, compile o = Some us /\
     forall e, exists e', send alias e us = Some e' /\ ep_equiv e' (s_apply e w).
 Proof. exact writes_mirror. Qed.
@@ -34,6 +37,13 @@ Theorem C20_triples_mirror : forall alias p c e, NoDup (quads e) ->
 Proof. exact triples_mirror. Qed.
 Print Assumptions C20_triples_mirror.
 
+(* query(text, queryGraph) for the modelled query shapes: same *)
+Theorem C20_query_mirror : forall alias k p c e, NoDup (quads e) ->
+  exists l, read_ans alias (OQuery k p c) e = ATriples l /\ NoDup l /\
+    forall t, In t l <-> In (t, cid_of c) (quads e) /\ matches p t = true.
+Proof. exact query_mirror. Qed.
+Print Assumptions C20_query_mirror.
+
 (* len(graph) is the number of triples of that graph at the endpoint *)
 Theorem C20_len : forall alias c e, NoDup (quads e) ->
   exists l, read_ans alias (OLen c) e = ANum (N.of_nat (length l)) /\ NoDup l /\
@@ -41,22 +51,22 @@ Theorem C20_len : forall alias c e, NoDup (quads e) ->
 Proof. exact len_mirror. Qed.
 Print Assumptions C20_len.
 
-(* contexts(triple), when no term of the triple is falsy in Python: exactly the
-   named graphs of the endpoint that contain the triple *)
-Theorem C20_contexts_partial : forall alias t e, NoDup (quads e) ->
-  falsy_contexts (OContexts (Some t)) = false ->
+(* contexts(triple): exactly the named graphs of the endpoint that contain the
+   triple, each once - for every triple, falsy terms included *)
+Theorem C20_contexts : forall alias t e, NoDup (quads e) ->
   exists l, read_ans alias (OContexts (Some t)) e = ANames l /\ NoDup l /\
     forall g, In g l <-> In (t, g) (quads e) /\ g <> 0.
 Proof. exact contexts_mirror. Qed.
-Print Assumptions C20_contexts_partial.
+Print Assumptions C20_contexts.
 
 (* The edit queue.  [q_step] says which writes are DUE at the endpoint: with
    autocommit every write at once (together with anything still queued);
    without it, at commit() or before the next read unless dirty_reads;
-   rollback() drops exactly the queued ones.  For every history, after every
-   step, the endpoint's dataset is the due writes executed in order on the
-   initial dataset - nothing more, nothing less. *)
-Theorem C20_queue : forall c, wf c -> kf c = 0 ->
+   rollback() drops exactly the queued ones; a transaction containing a
+   statement the endpoint rejects is dropped as a whole when it is sent.  For
+   every history, after every step, the endpoint's dataset is the due writes
+   executed in order on the initial dataset - nothing more, nothing less. *)
+Theorem C20_queue : forall c, wf c ->
   Forall2 (fun ob dn => ep_equiv (fst ob) (fold_left s_apply dn (init_ep c)))
           (model_obs c) (due_run (q0 c) (c_ops c)).
 Proof. exact queue_model. Qed.
@@ -77,44 +87,35 @@ Theorem C20_spec_reading_triples : forall p c now l, read_ok (OTriples p c) now 
 Proof. exact read_ok_triples. Qed.
 Print Assumptions C20_spec_reading_triples.
 
-(* ---- findings: the faithful model leaves the specification ---------- *)
+(* ---- the historical definitions do not have the property ------------ *)
 
-(* F13a: addN (and update()/query() through a Graph or Dataset) name the
-   default graph by rdflib's internal IRI <urn:x-rdflib:default>; on an
-   endpoint that is not itself an rdflib Dataset the quad lands in a named
-   graph and the default graph does not get it. *)
-Theorem C20_default_graph_iri_refuted : exists c, wf c /\ spec_ok c (model_obs c) = false.
-Proof. apply (@refuted_by wit_a); vm_compute; reflexivity. Qed.
-Print Assumptions C20_default_graph_iri_refuted.
+(* F13a (before e1d625e1): the identifier <urn:x-rdflib:default> passed as
+   queryGraph designated a NAMED graph on a generic endpoint *)
+Theorem C20_hist_default_graph_iri_refuted :
+  resolve false (qg_ref_hist (Some 0)) <> cid_of (Some 0) /\ resolve false (qg_ref (Some 0)) = cid_of (Some 0).
+Proof. exact hist_default_iri_refuted. Qed.
+Print Assumptions C20_hist_default_graph_iri_refuted.
 
-(* F13b: contexts((s,p,o)) turns a falsy bound term into a variable *)
-Theorem C20_contexts_truthiness_refuted : exists c, wf c /\ spec_ok c (model_obs c) = false.
-Proof. apply (@refuted_by wit_b); vm_compute; reflexivity. Qed.
-Print Assumptions C20_contexts_truthiness_refuted.
-
-(* F13c: an update the endpoint rejects stays in the edit queue: every later
-   write fails too (until rollback()) *)
-Theorem C20_rejected_update_refuted : exists c, wf c /\ spec_ok c (model_obs c) = false.
-Proof. apply (@refuted_by wit_c); vm_compute; reflexivity. Qed.
-Print Assumptions C20_rejected_update_refuted.
-
-(* F13d: update(initBindings=...) pastes the bindings in as a regex replacement
-   template: DELETE ... with ?o = "c\\nd" deletes the triple with "c<newline>d" *)
-Theorem C20_initbindings_template_refuted : exists c, wf c /\ spec_ok c (model_obs c) = false.
-Proof. apply (@refuted_by wit_d); vm_compute; reflexivity. Qed.
-Print Assumptions C20_initbindings_template_refuted.
+(* F13b (before 168749f3): contexts((s,p,o)) turned a falsy bound term into a variable *)
+Theorem C20_hist_contexts_truthiness_refuted :
+  exists t s, NoDup s /\ ctx_rows (truthy_pat_hist t) s <> ctx_rows (pat_of t) s.
+Proof. exact hist_contexts_truthiness_refuted. Qed.
+Print Assumptions C20_hist_contexts_truthiness_refuted.
 
 (* non-vacuity: a history with queued writes, a wildcard remove, a flushing
-   read, a rollback and a dirty read is in scope (kf = 0), accepted, and its
-   due writes are what one expects *)
+   read, a rollback, a dirty read, a rejected update inside a transaction
+   (the commit raises and the transaction is gone) is accepted, and its due
+   writes are what one expects *)
 Example C20_nonvacuous :
   let c := {| c_alias := false; c_auto := false; c_dirty := false;
               c_init := [((1, 3, 10), 1)]; c_names := [1];
               c_ops := [OAdd (2, 3, 15) (Some 1); ORemove (Some 1, None, None) (Some 1);
-                        OTriples all_pat (Some 1); OAddN [((2, 4, 16), 2)]; ORollback;
-                        OAdd (2, 4, 17) None; OSetDirty true; OLen None; OCommit; OLen None] |} in
-  kf c = 0 /\ spec_ok c (model_obs c) = true
-  /\ map snd (model_obs c) = [ANone; ANone; ATriples [(2, 3, 15)]; ANone; ANone; ANone; ANone; ANum 0; ANone; ANum 1]
+                        OTriples all_pat (Some 1); OAddN [((2, 4, 16), 2); ((2, 4, 16), 0)]; ORollback;
+                        OAdd (2, 4, 17) None; OSetDirty true; OLen None; OCommit; OLen None;
+                        OAdd (2, 4, 5) (Some 2); OBadUpdate; OCommit; OContexts (Some (2, 4, 5))] |} in
+  spec_ok c (model_obs c) = true
+  /\ map snd (model_obs c) = [ANone; ANone; ATriples [(2, 3, 15)]; ANone; ANone; ANone; ANone; ANum 0; ANone; ANum 1;
+                              ANone; ANone; ARaised; ANames []]
   /\ q_done (fold_left q_step (c_ops c) (q0 c))
      = [WAdd [((2, 3, 15), 1)]; WRemove (Some 1, None, None) 1; WAdd [((2, 4, 17), 0)]].
 Proof. vm_compute. repeat split. Qed.
